@@ -436,12 +436,14 @@ static int run_freeze_wide_charts(const std::string &dir, uint64_t seed) {
 
 // More textured grids, this time with a chart id per TRIANGLE (random, or in runs), random diagonals and a shuffled face order: UV islands of every
 // shape, so that the attribute traversal enters a new island through a face with one, two or no corners coded before.
-static int run_freeze_islands(const std::string &dir, uint64_t seed, long n) {
+// extra = true (freeze-islands-att, appended to /verif/corpus as j*): small grids (2..3 quads a side) that also carry a seam-free int attribute per position
+// vertex -- three attribute decoders, at least twice as many points as vertices
+static int run_freeze_islands(const std::string &dir, uint64_t seed, long n, bool extra = false) {
   vrt::Rng r(seed);
   std::ofstream idx(dir + "/index.ndjson", std::ios::app);
   long k = 0;
   for (long i = 0; i < n; ++i) {
-    const int w = r.range(2, 6), h = r.range(2, 6), ncharts = r.range(2, 3);
+    const int w = r.range(2, extra ? 3 : 6), h = r.range(2, extra ? 3 : 6), ncharts = r.range(2, 3);
     std::vector<std::array<int, 3>> tris;
     for (int y = 0; y < h; ++y) for (int x = 0; x < w; ++x) {
       const int a = y * (w + 1) + x, b = a + 1, c = a + (w + 1), d = c + 1;
@@ -463,15 +465,22 @@ static int run_freeze_islands(const std::string &dir, uint64_t seed, long n) {
     const int it = add_attribute(m, dt, nc);
     for (int c = 0; c < ncharts; ++c) for (int v = 0; v < nv; ++v) { const float t[2] = {(float)(v % (w + 1)) / (w + 1) * 0.3f + 0.33f * c, (float)(v / (w + 1)) / (h + 1) * (0.4f + 0.25f * c)}; m->attribute(it)->SetAttributeValue(AttributeValueIndex(c * nv + v), t); }
     for (int t = 0; t < nf; ++t) for (int q = 0; q < 3; ++q) { m->attribute(ip)->SetPointMapEntry(PointIndex(3 * t + q), AttributeValueIndex(tris[t][q])); m->attribute(it)->SetPointMapEntry(PointIndex(3 * t + q), AttributeValueIndex(chart[t] * nv + tris[t][q])); }
+    if (extra) {
+      AttDesc dg{GeometryAttribute::GENERIC, DT_INT32, 1, false, false, nv};
+      const int ig = add_attribute(m, dg, nc);
+      for (int v = 0; v < nv; ++v) { const int32_t x = 3 * v + 1; m->attribute(ig)->SetAttributeValue(AttributeValueIndex(v), &x); }
+      for (int t = 0; t < nf; ++t) for (int q = 0; q < 3; ++q) m->attribute(ig)->SetPointMapEntry(PointIndex(3 * t + q), AttributeValueIndex(tris[t][q]));
+    }
     for (int f = 0; f < nf; ++f) { Mesh::Face fc; for (int q = 0; q < 3; ++q) fc[q] = PointIndex(3 * f + q); m->AddFace(fc); }
     m->DeduplicatePointIds();
-    Opt o; o.expert = true; o.method = 1; o.es = o.ds = (int)(i % 4); o.submethod = (i % 5 == 0) ? 2 : -1;
+    Opt o; o.expert = true; o.method = 1; o.es = o.ds = (int)(i % 4) + (extra ? 2 : 0); o.submethod = (i % 5 == 0) ? 2 : -1;
     o.qbits = {r.range(9, 14), r.range(8, 12)};
+    if (extra) o.qbits.push_back(0);
     Encoded e = encode(g, o);
     if (!e.ok) continue;
     Decoded d = decode(e.bytes.data(), e.bytes.size());
     if (!d.ok) continue;
-    char name[64]; snprintf(name, sizeof name, "i%04ld.drc", k++);
+    char name[64]; snprintf(name, sizeof name, extra ? "j%04ld.drc" : "i%04ld.drc", k++);
     std::ofstream f(dir + "/" + name, std::ios::binary); f.write(e.bytes.data(), e.bytes.size());
     idx << "{\"file\":\"" << name << "\",\"digest\":" << h64(geom_digest(*d.pc, d.is_mesh)) << ",\"np\":" << d.pc->num_points() << ",\"nf\":" << d.mesh()->num_faces()
         << ",\"gt\":\"mesh\",\"method\":1,\"es\":" << o.es << ",\"pred\":" << o.pred << ",\"builtin\":true,\"what\":\"uv islands " << w << "x" << h << " charts=" << ncharts << " style=" << style
@@ -596,6 +605,7 @@ int main(int argc, char **argv) {
   if (argc >= 5 && !strcmp(argv[1], "freeze-handles")) return run_freeze_handles(argv[2], strtoull(argv[3], 0, 10), atol(argv[4]));
   if (argc >= 4 && !strcmp(argv[1], "freeze-wide-charts")) return run_freeze_wide_charts(argv[2], strtoull(argv[3], 0, 10));
   if (argc >= 5 && !strcmp(argv[1], "freeze-islands")) return run_freeze_islands(argv[2], strtoull(argv[3], 0, 10), atol(argv[4]));
+  if (argc >= 5 && !strcmp(argv[1], "freeze-islands-att")) return run_freeze_islands(argv[2], strtoull(argv[3], 0, 10), atol(argv[4]), true);
   if (argc >= 4 && !strcmp(argv[1], "freeze-bounds")) return run_freeze_bounds(argv[2], strtoull(argv[3], 0, 10));
   if (argc >= 4 && !strcmp(argv[1], "freeze-mp")) return run_freeze_mp(argv[2], strtoull(argv[3], 0, 10));
   if (argc >= 4 && !strcmp(argv[1], "freeze-cmp")) return run_freeze_cmp(argv[2], strtoull(argv[3], 0, 10));
